@@ -31,6 +31,10 @@ type c10Case struct {
 	To      []c10Box    `json:"to"`
 	Cc      []c10Box    `json:"cc,omitempty"`
 	DateSec int64       `json:"date_sec"`
+	// Extras: header fields the library generates on the caller's request - "importance:<low|high|urgent|non-urgent>",
+	// "bulk", "org", "mdn", "custom" (a generic X- header with a mixed-case name). They have to survive the
+	// round trip without being added a second time.
+	Extras []string `json:"extras,omitempty"`
 }
 
 func (b c10Box) text() string {
@@ -67,6 +71,28 @@ func c10Run(c c10Case) []*core.Violation {
 		}
 	}
 	m.Subject(c.Subject)
+	for _, x := range c.Extras {
+		switch x {
+		case "importance:low":
+			m.SetImportance(mail.ImportanceLow)
+		case "importance:high":
+			m.SetImportance(mail.ImportanceHigh)
+		case "importance:urgent":
+			m.SetImportance(mail.ImportanceUrgent)
+		case "importance:non-urgent":
+			m.SetImportance(mail.ImportanceNonUrgent)
+		case "bulk":
+			m.SetBulk()
+		case "org":
+			m.SetOrganization("Verif Org")
+		case "mdn":
+			_ = m.RequestMDNTo("mdn@verif.example")
+		case "custom":
+			m.SetGenHeader("X-VERIF-MixedCase-ID", "custom value 1")
+			m.SetGenHeader("List-Unsubscribe", "<mailto:u@verif.example>")
+		}
+		rec.Class("extra:" + x)
+	}
 	date := time.Unix(c.DateSec, 0).UTC()
 	m.SetDateWithValue(date)
 	var first bytes.Buffer
@@ -201,6 +227,21 @@ func c10Run(c c10Case) []*core.Violation {
 		return []*core.Violation{core.V("rerender-error", "%v", err)}
 	}
 	root := mimeread.Parse(second.Bytes())
+	// nothing added: no field of the top-level section occurs more often (whatever the capitalisation of
+	// its name) than in the rendering that was parsed
+	count := func(e *mimeread.Entity) map[string]int {
+		out := map[string]int{}
+		for _, f := range e.Fields {
+			out[strings.ToLower(f.Name)]++
+		}
+		return out
+	}
+	before, after := count(mimeread.Parse(first.Bytes())), count(root)
+	for name, n := range after {
+		if n > before[name] && before[name] >= 1 {
+			vs = append(vs, core.V("rerender-duplicate-field", "re-rendered message: field %q occurs %d times at the top level, the parsed rendering had it %d time(s)", name, n, before[name]))
+		}
+	}
 	root.Walk(func(e *mimeread.Entity) {
 		for _, name := range []string{"Content-Type", "Content-Transfer-Encoding", "MIME-Version", "Subject", "From", "To", "Cc", "Date", "Message-ID", "Content-Disposition", "Content-ID"} {
 			if n := e.Count(name); n > 1 {
@@ -335,6 +376,9 @@ func c10Gen(t *rapid.T) c10Case {
 		c.Cc = append(c.Cc, box("cc", i))
 	}
 	c.DateSec = rapid.Int64Range(0, 4102444800).Draw(t, "date")
+	if rapid.IntRange(0, 2).Draw(t, "hasextras") == 0 {
+		c.Extras = rapid.SliceOfNDistinct(rapid.SampledFrom([]string{"importance:low", "importance:high", "importance:urgent", "importance:non-urgent", "bulk", "org", "mdn", "custom"}), 1, 3, func(s string) string { return strings.SplitN(s, ":", 2)[0] }).Draw(t, "extras")
+	}
 	return c
 }
 
